@@ -32,13 +32,13 @@ theorem addFunctions_spec_lem (base : String) (acc : InjAcc) (fs : List SFunc) :
     · simp only [c, if_true]
       obtain ⟨h1, h2⟩ := ih (injStep base acc f)
       rw [h1, h2]
-      simp only [injStep, fmtRenamed, List.append_assoc, List.singleton_append, and_self]
+      simp only [injStep, fmtRenamed, renamed, List.append_assoc, List.singleton_append, and_self]
     · simp only [c]
       exact ih acc
 
 theorem every_public_reexposed_lem (base : String) (used : List String) (fs : List SFunc) (f : SFunc)
     (hf : f ∈ fs) (hp : f.vis = .pub) :
-    ∃ g ∈ specInject base used fs, g.body = .field base f.name ∧ (g.name = f.name ∨ g.name = base ++ "_" ++ f.name)
+    ∃ g ∈ specInject base used fs, g.body = .field base f.name ∧ (g.name = f.name ∨ g.name = renamed base f.name)
       ∧ g.args = f.args ∧ g.ret = f.ret ∧ g.cc = f.cc ∧ g.vis = .pub := by
   induction fs generalizing used with
   | nil => cases hf
@@ -109,7 +109,7 @@ theorem conversions_emitted_lem (reg : Registry) (path : Path) (size align : Nat
     ∃ pre, Emit.typeItems reg path size align vis td = pre ++
       (hier.flatMap fun (fp, ty) =>
         if occurrences hier ty > 1 then
-          [Sexp.mk "conflict" [.str ("_CONFLICTING_" ++ Emit.upper name ++ "_" ++ "_".intercalate (fp.map Emit.upper))]]
+          [Sexp.mk "conflict" [.str ("_CONFLICTING_" ++ Emit.upper (unraw name) ++ "_" ++ "_".intercalate (fp.map fun s => Emit.upper (unraw s)))]]
         else
           [Sexp.mk "asref" [.str name, .str (Emit.rtyStr ty), Sexp.mk "fp" (fp.map .str)],
            Sexp.mk "asmut" [.str name, .str (Emit.rtyStr ty), Sexp.mk "fp" (fp.map .str)]]) ++
